@@ -27,6 +27,7 @@ Ev == Trace[tid].events[l + 1]
 Act == CASE Ev.a = "iter" -> Iter(Ev.i)
          [] Ev.a = "drop" -> Drop(Ev.i)
          [] Ev.a = "dropview" -> DropView
+         [] Ev.a = "clearcache" -> ClearCache
          [] Ev.a = "next" -> (NextNoCache(Ev.i) \/ NextFromCache(Ev.i)) /\ hist'[Len(hist')].res = Ev.res
          [] Ev.a = "end" -> FALSE
 
